@@ -520,6 +520,14 @@ fn c11(tier: &str) -> Vec<String> {
     }
     v.extend(queue_thresholds("long", tier));
     v.extend(queue_thresholds("errors", tier).into_iter().map(|s| s.replace("script=eo:", "script=ep:").replace("script=eoe:", "script=epe:")));
+    // a sampler reads panics() while the worker restarts: a metric that follows a panic is handed over
+    // only after the panic was counted
+    for cap in ["u", "3"] {
+        for sc in ["p", "pp", "pop"] {
+            v.push(format!("queue:cap={}:script={}:prog=E0E0E0SJW:sampler=2:P=2", cap, sc));
+            v.push(format!("queue:cap={}:script={}:prog=SE0E0E0JW:sampler=3:P=2", cap, sc));
+        }
+    }
     // panics after the scripted prefix too (later metrics panic)
     for sc in ["opop", "oopp", "popo"] {
         v.push(format!("queue:cap=u:script={}:prog=E0E0QRE0E0QR", sc));
